@@ -113,15 +113,33 @@ impl<K: SimKernel<D>, const D: usize> Monitor<K, D> for C01 {
                 .collect();
             if !unexplained.is_empty() {
                 ctx.stats.bump("c01.inputs_absent_and_not_near_a_survivor");
+                // a vertex skipped as degenerate takes the inputs that deduplication had folded
+                // into it along (they were counted as duplicates of a representative that then
+                // did not make it): count groups of mutually near unexplained inputs, not inputs
+                let mut group: Vec<usize> = (0..unexplained.len()).collect();
+                for i in 0..unexplained.len() {
+                    for j in 0..i {
+                        let (a, b) = (unexplained[i].coords(), unexplained[j].coords());
+                        if a.iter().zip(&b).all(|(x, y)| (x - y).abs() <= near) {
+                            let (gi, gj) = (group[i], group[j]);
+                            for g in group.iter_mut() {
+                                if *g == gi {
+                                    *g = gj;
+                                }
+                            }
+                        }
+                    }
+                }
+                let groups: std::collections::BTreeSet<usize> = group.iter().copied().collect();
                 if let Some((_, _, sg, _)) = &out.cstats
-                    && unexplained.len() > *sg
+                    && groups.len() > *sg
                 {
                     let u = unexplained[0];
                     fail(
                         ctx,
                         "input-vertex-vanished",
                         format!("{tail}|dedup={}|vanished", opts.dedup),
-                        format!("{} input vertices are absent from the result, not within {near:e} of any survivor, and only {sg} were reported as skipped for degeneracy; e.g. {:032x} at {:?}", unexplained.len(), u.uuid.0, u.coords()),
+                        format!("{} input vertices in {} separate places are absent from the result, not within {near:e} of any survivor, and only {sg} were reported as skipped for degeneracy; e.g. {:032x} at {:?}", unexplained.len(), groups.len(), u.uuid.0, u.coords()),
                     );
                 }
             }
